@@ -536,8 +536,8 @@ def apply_model(m, op):
     if k == "setmodel":
         i, variant = op[1], op[2]
         if variant in ("other_annot", "other_bonds"):
-            if variant == "other_bonds" and m.n < 2:
-                pass  # no different bond list can be built for < 2 atoms: behaves like 'equal'
+            if (variant == "other_bonds" and m.n < 2) or (variant == "other_annot" and m.n == 0):
+                pass  # no different bond list / annotation values can be built: behaves like 'equal'
             else:
                 raise Refuse()
         if not (-m.m <= i < m.m):
@@ -705,8 +705,6 @@ def apply_impl(obj, m, op):
         mm.box = [BOX(9)] if (m.box is not None and variant != "no_box") else None
         if variant == "other_annot":
             mm.atoms = [dict(a, res_id=a["res_id"] + 1) for a in mm.atoms]
-            if not mm.atoms:
-                mm.cats = mm.cats + ["extra2"]
         if variant == "other_bonds" and m.n >= 2:
             mm.bonds = {(0, 1): 3} if (m.bonds or {}).get((0, 1)) != 3 else {}
         obj[i] = build(mm)
